@@ -30,7 +30,7 @@ RULE = (
     "contain the twin's locked nodes.  SQL materializations are also re-applied (reapply) to a bare, not Select-rooted "
     "operand taken from Select.target / skip_to, and tree-building calls (deduplication, slice, selection, "
     "projection, materialized, Engine.conform) on the resulting locked node must return trees that contain it. "
-    "  Every tree is also handed to a real Processor: a materialization with no transfer upstream of it must be part of the returned tree as the identical object. "
+    "  Every tree is also handed to a real Processor: a materialization with nothing for the Processor to rewrite upstream of it (no transfer, no chain with a statically empty operand) must be part of the returned tree as the identical object. "
 )
 ASSUMPTIONS = [
     "leaf and materialization names are unique within a case, so (type, name) identifies a locked node",
@@ -217,7 +217,11 @@ def run_case(case):
         # ---- Processor.process: a materialization with nothing to rewrite upstream (no transfer below
         # it) is a locked node that the returned tree must contain as the identical object
         try:
-            mats_before = [n for n in interp.walk(base) if isinstance(n, R.Materialization) and not any(isinstance(k, R.Transfer) for k in interp.walk(n.target))]
+            def rewritten_by_processor(k):
+                # transfers are re-applied with their payload; chains lose statically empty operands
+                return isinstance(k, R.Transfer) or (isinstance(k, R.BinaryOperationRelation) and isinstance(k.operation, R.Chain) and (k.lhs.max_rows == 0 or k.rhs.max_rows == 0))
+
+            mats_before = [n for n in interp.walk(base) if isinstance(n, R.Materialization) and not any(rewritten_by_processor(k) for k in interp.walk(n.target))]
             if mats_before:
                 from ..dbx import VProcessor
 
